@@ -19,3 +19,159 @@ def replay(ctx, rep):
         return 1
     print('not reproduced')
     return 0
+
+
+# ---------------- metamodel side: reflective views follow edits of the class graph ----------------
+def _closure(sup, c):
+    seen, todo = [], list(sup[c])
+    while todo:
+        d = todo.pop(0)
+        if d not in seen:
+            seen.append(d)
+            todo += sup[d]
+    return seen
+
+
+def meta_views(ctx, out):
+    """random class graphs (<= 5 classes, DAG, diamonds) and edit histories (add/remove supertype or
+    feature); after EVERY edit every view of every class is queried and compared with the model
+    (Model/MetaViews.v, recomputed from the current description) and with an independent closure."""
+    from harness import common
+    common.use_repo()
+    from pyecore import ecore as E
+    rng = ctx.rng
+    model = common.Model()
+    n = 150 if ctx.tier != 'thorough' else 3000
+    stats = {'graphs': 0, 'edits': 0, 'queries': 0}
+    sample = None
+    for gi in range(n):
+        ncls = rng.randrange(2, 6)
+        classes = [E.EClass(f'K{i}') for i in range(ncls)]
+        sup = {i: [] for i in range(ncls)}
+        own = {i: [] for i in range(ncls)}       # list of (fid, isref, name)
+        fobj = {}
+        nextf = [0]
+        hist = []
+
+        def add_feature(c):
+            fid = nextf[0]
+            nextf[0] += 1
+            isref = rng.random() < 0.5
+            name = f'f{rng.randrange(0, 6)}' if rng.random() < 0.3 else f'g{fid}'
+            f = E.EReference(name, classes[rng.randrange(ncls)]) if isref else E.EAttribute(name, E.EString)
+            classes[c].eStructuralFeatures.append(f)
+            own[c].append((fid, isref, name))
+            fobj[fid] = f
+            hist.append(['add-feature', c, name, isref])
+
+        def check_all(where):
+            names = sorted({nm for c in own for (_, _, nm) in own[c]} | {'nope'})
+            nameid = {nm: i for i, nm in enumerate(names)}
+            toks = [ncls]
+            for c in range(ncls):
+                toks += [len(sup[c])] + sup[c] + [len(own[c])]
+                for (fid, isref, nm) in own[c]:
+                    toks += [fid, int(isref), nameid[nm]]
+            toks += [nameid[nm] for nm in names]
+            mo = model.ask('metaviews', toks)
+            r = iter(mo)
+            fid_of = {id(f): k for k, f in fobj.items()}
+            cid_of = {id(c): k for k, c in enumerate(classes)}
+            for c in range(ncls):
+                ec = classes[c]
+                impl = {
+                    'supers': [cid_of[id(x)] for x in ec.eAllSuperTypes()],
+                    'feats': [fid_of[id(x)] for x in ec.eAllStructuralFeatures()],
+                    'refs': sorted(fid_of[id(x)] for x in ec.eAllReferences()),
+                    'attrs': sorted(fid_of[id(x)] for x in ec.eAllAttributes()),
+                    'find': [fid_of.get(id(ec.findEStructuralFeature(nm)), -1) for nm in names],
+                }
+                stats['queries'] += 5
+                m_sup = [next(r) for _ in range(next(r))]
+                m_feats = [next(r) for _ in range(next(r))]
+                m_refs = sorted(next(r) for _ in range(next(r)))
+                m_attrs = sorted(next(r) for _ in range(next(r)))
+                m_find = [next(r) for _ in names]
+                mod = {'supers': m_sup, 'feats': m_feats, 'refs': m_refs, 'attrs': m_attrs, 'find': m_find}
+                case = {'ncls': ncls, 'history': hist[:], 'class': c}
+                if impl != mod:
+                    k = next(k for k in impl if impl[k] != mod[k])
+                    out.diff(f'metaviews {where}: class K{c} {k}: impl {impl[k]} model {mod[k]}', case)
+                # independent oracle: own + inherited declarations, reflexive-transitive closure
+                anc = _closure(sup, c)
+                want_feats = sorted(fid for d in [c] + anc for (fid, _, _) in own[d])
+                isr = {fid: ir for d in own for (fid, ir, _) in own[d]}
+                clause = None
+                if sorted(impl['supers']) != sorted(anc) or len(set(impl['supers'])) != len(impl['supers']):
+                    clause = 'eAllSuperTypes'
+                elif sorted(impl['feats']) != want_feats or len(set(impl['feats'])) != len(impl['feats']):
+                    clause = 'eAllStructuralFeatures'
+                elif impl['refs'] != sorted(f for f in want_feats if isr[f]):
+                    clause = 'eAllReferences'
+                elif impl['attrs'] != sorted(f for f in want_feats if not isr[f]):
+                    clause = 'eAllAttributes'
+                else:
+                    nm_of = {fid: nm for d in own for (fid, _, nm) in own[d]}
+                    for nm, got in zip(names, impl['find']):
+                        have = [f for f in want_feats if nm_of[f] == nm]
+                        if (got == -1) != (not have) or (got != -1 and got not in have):
+                            clause = 'findEStructuralFeature'
+                if clause:
+                    out.fail({'property': 'C19', 'clause': 'meta-' + clause, 'after': hist[-1][0] if hist else 'creation'},
+                             f'class K{c} {clause} disagrees with own+inherited declarations after {hist[-3:]}: {impl}', case)
+
+        for c in range(ncls):
+            for _ in range(rng.randrange(0, 3)):
+                add_feature(c)
+        check_all('initial')
+        for step in range(rng.randrange(2, 9)):
+            k = rng.choice(['add-super', 'add-super', 'remove-super', 'add-feature', 'remove-feature'])
+            c = rng.randrange(ncls)
+            if k == 'add-super':
+                cands = [d for d in range(ncls) if d != c and d not in sup[c] and c not in _closure(sup, d) and d != c]
+                if not cands:
+                    continue
+                d = rng.choice(cands)
+                try:
+                    classes[c].eSuperTypes.append(classes[d])
+                except TypeError:
+                    continue      # Python refuses an inconsistent MRO: the edit did not happen
+                sup[c].append(d)
+                hist.append(['add-super', c, d])
+            elif k == 'remove-super':
+                if not sup[c]:
+                    continue
+                d = rng.choice(sup[c])
+                try:
+                    classes[c].eSuperTypes.remove(classes[d])
+                except TypeError:
+                    continue
+                sup[c].remove(d)
+                hist.append(['remove-super', c, d])
+            elif k == 'add-feature':
+                add_feature(c)
+            else:
+                if not own[c]:
+                    continue
+                t = rng.choice(own[c])
+                classes[c].eStructuralFeatures.remove(fobj[t[0]])
+                own[c].remove(t)
+                hist.append(['remove-feature', c, t[2]])
+            stats['edits'] += 1
+            check_all(f'after edit {len(hist)}')
+        stats['graphs'] += 1
+        if sample is None and len(hist) > 4:
+            sample = {'ncls': ncls, 'history': hist[:]}
+    model.close()
+    out.coverage['meta_graphs'] = stats['graphs']
+    out.coverage['meta_edits'] = stats['edits']
+    out.coverage['meta_view_queries'] = stats['queries']
+    out.coverage['meta_sample'] = sample
+
+
+_kernel_run = run
+
+
+def run(ctx, out):   # noqa: F811
+    _kernel_run(ctx, out)
+    meta_views(ctx, out)
